@@ -23,7 +23,7 @@ use crate::crypto::merkle::{DoubleMerkleProof, DoubleMerkleTree, SliceRoot};
 use crate::crypto::{Hash, hash};
 use crate::disseminator::rotor::{SamplingStrategy, StakeWeightedSampler};
 use crate::network::{Network, RepairRequesterNetwork, RepairResponderNetwork};
-use crate::shredder::{Shred, ShredIndex, ValidatedShred};
+use crate::shredder::{RegularShredder, Shred, ShredIndex, Shredder, ValidatedShred};
 use crate::types::SliceIndex;
 use crate::{BlockId, ValidatorIndex};
 
@@ -427,6 +427,12 @@ where
                     || shred.payload().shred_index != index
                 {
                     warn!("repair response (Shred) for mismatching shred index");
+                    return;
+                }
+                // the shred type is not covered by the leader's signature, a type that contradicts
+                // the shred's index would be refused by the blockstore, wait for a proper response
+                if !shred.has_expected_type(RegularShredder::DATA_OUTPUT_SHREDS) {
+                    warn!("repair response (Shred) with a type contradicting its shred index");
                     return;
                 }
                 // the last-slice flag has to agree with the proven number of slices,
